@@ -35,6 +35,14 @@ def gen_cases(rng, tier, scale):
         tpl = '{{%s}}|{{id (evalv "%s")}}' % (ps, ps)
         tpl = '{{{%s}}}|{{evalp "%s"}}' % (ps, ps)
         cases.append(rcase(f'e{k}', tpl, data, pre=['probes'], entry=4, path=p, tags=['evaluate'], kind='evaluate'))
+    # fixed witnesses of the recorded findings (so that each is met on every run)
+    W = [('w16', '{{#each a as |name|}}{{../name}}{{/each}}', {'a': [1, 2], 'name': 'ROOT'}, 'ROOTROOT'),
+         ('w17a', '{{#with a as |name|}}{{this.name}} {{./name}}{{/with}}', {'a': {'name': 'INNER'}}, 'INNER INNER'),
+         ('w17b', '{{#with a as |name|}}{{[name]}}{{/with}}', {'a': {'name': 'INNER'}}, 'INNER'),
+         ('w9', '{{a.x}}|', {'a': [5, 6]}, '|'),
+         ('w18', '{{a.[this]}}', {'a': {'this': 1}}, '1')]
+    for cid, t, d, exp in W:
+        cases.append(rcase(cid, t, d, entry=4, kind='witness', exp=exp, tags=['witness']))
     return cases
 
 def expected(c):
@@ -53,6 +61,8 @@ def oracle(c, io, mo):
         if r['out'] != exp:
             return f'expected {exp!r}, got {r["out"]!r}'
         return None
+    if c['kind'] == 'witness':
+        return None if r.get('out') == c['exp'] else f'expected {c["exp"]!r}, got {r.get("out", r.get("reason"))!r}'
     if c['kind'] == 'evaluate':
         if r['kind'] != 'ok':
             return None
@@ -86,7 +96,12 @@ def _impl_err(io, reason):
 def known_F9_array_key(c, mo, io):
     return _impl_err(io, 'InvalidJsonIndex')
 
+def known_F16_up_param(c, mo, io):
+    return c['line'].startswith('w16 ')
+
 def known_F17_bracket_param(c, mo, io):
+    if c['line'].startswith('w17'):
+        return True
     import re
     # an explicit [name] / this.name / ./name / ../name spelling whose head is a block-parameter name in scope
     params = set(re.findall(r'as \|([^|]*)\|', c['tpl']))
@@ -97,4 +112,6 @@ def known_F17_bracket_param(c, mo, io):
     return False
 
 def known_F18_this_key(c, mo, io):
+    if c['line'].startswith('w18 '):
+        return True
     return '[this]' in c['tpl']
